@@ -145,7 +145,12 @@ impl<W, R, T> CompilationScope<'_, W, R, T> {
             let Some(default) = default else { continue };
             let compiled = self.compile(default)?;
             let default_type = self.type_of(&compiled)?;
-            if param.type_.bind_in_assignment(&default_type).is_none() {
+            // the default is a fixed value: it cannot decide what a type parameter of the function stands for
+            if !param
+                .type_
+                .bind_in_assignment(&default_type)
+                .map_or(false, |bind| bind.is_empty())
+            {
                 return Err(CompilationError::InvalidArgumentType {
                     expected: param.type_.clone(),
                     got: default_type,
